@@ -170,18 +170,18 @@ class Ctx:
         srcs.append("distributed/mpi.c" if mpi else "distributed/no_mpi.c")
         return [os.path.join(REPO, "src", s) for s in srcs if s not in exclude]
 
-    def driver(self, ops_file, out_file, timeout=1200):
+    def driver(self, mode, ops_file, out_file, timeout=1200):
         with open(ops_file, "rb") as fi, open(out_file, "wb") as fo:
             try:
-                p = subprocess.run([DRIVER], stdin=fi, stdout=fo, stderr=subprocess.PIPE, timeout=timeout)
+                p = subprocess.run([DRIVER, mode], stdin=fi, stdout=fo, stderr=subprocess.PIPE, timeout=timeout)
                 return p.returncode == 0
             except subprocess.TimeoutExpired:
                 return False
 
-    def kdiff(self, name, ops_file, c_file, context=None):
+    def kdiff(self, mode, name, ops_file, c_file, context=None):
         """same op lines through the model; compare line by line; returns first divergence or None"""
         l_file = c_file + ".lean"
-        ok = self.driver(ops_file, l_file)
+        ok = self.driver(mode, ops_file, l_file)
         ops = open(ops_file, errors="replace").read().splitlines()
         c = open(c_file, errors="replace").read().splitlines()
         l = open(l_file, errors="replace").read().splitlines()
